@@ -81,17 +81,161 @@ Proof.
   destruct (ls_hard s) eqn:Hh.
   { split; [apply sub_refl; exact Wd|]. split; [exact Wd|]. intros E. rewrite Hh in E. discriminate. }
   destruct (get_loc l (ls_data s)) as [a|] eqn:Ga.
-  2:{ split; [apply sub_refl; exact Wd|]. split; [exact Wd|]. intros _. split; [exact Hh|]. intros (m & E). discriminate. }
+  2:{ split; [apply sub_refl; exact Wd|]. split; [exact Wd|]. intros _. split; [reflexivity|]. intros (m & E). discriminate. }
   rewrite Hmp in *. unfold merge_with_path in *. cbn [wrap_path] in *.
   destruct (sub_get_loc _ _ _ _ Hs Ga) as (w' & Hw' & Haw). rewrite Hg in Hw'. inversion Hw'; subst w'.
-  assert (Wa : json_wf a = true) by (eapply get_loc_wf; eassumption).
+  assert (Wa : json_wf a = true) by exact (get_loc_wf l (ls_data s) a Wd Ga).
   destruct (merge a src) as [[a' ch]|] eqn:M.
   2:{ split; [apply sub_refl; exact Wd|]. split; [exact Wd|]. intros E. discriminate. }
   destruct (merge_upper _ _ _ _ _ M Haw Hsrc Wa Wsrc) as [Ua Ub].
   destruct ch.
-  - split; [apply sub_refl; exact Wd|]. split; [exact Wd|]. intros _. split; [exact Hh|].
+  - split; [apply sub_refl; exact Wd|]. split; [exact Wd|]. intros _. split; [reflexivity|].
     intros (m & E). inversion E; subst a. apply merge_obj_false in M. discriminate.
   - cbn [ls_data set_data ls_hard]. split; [eapply sub_set_loc_infl; eassumption|].
-    split; [apply set_loc_wf; [exact Wd|eapply merge_wf; eassumption]|].
-    intros _. split; [exact Hh|]. intros _. exists a'. split; [eapply get_set_loc_same; exact Ga|exact Ub].
+    split; [apply set_loc_wf; [exact Wd|exact (merge_wf src a a' false M Wa Wsrc)]|].
+    intros _. split; [reflexivity|]. intros _. exists a'. split; [eapply get_set_loc_same; exact Ga|exact Ub].
+Qed.
+
+Lemma obj_persist : forall l d d' m, sub_b d d' = true -> get_loc l d = Some (JObj m) -> exists m', get_loc l d' = Some (JObj m').
+Proof.
+  intros l d d' m Hs Hg. destruct (sub_get_loc _ _ _ _ Hs Hg) as (w & Hw & Hmw).
+  destruct (sub_obj_inv _ _ Hmw) as (m' & -> & _). exists m'. exact Hw.
+Qed.
+
+Definition is_obj_at (d : json) (l : rpath) : Prop := exists m, get_loc l d = Some (JObj m).
+
+Lemma fold_target_facts : forall f src targets s D, f_mergepath f = [] ->
+  sub_b (ls_data s) D = true -> json_wf (ls_data s) = true -> json_wf src = true ->
+  (forall l, In l targets -> exists w, get_loc l D = Some w /\ sub_b src w = true) ->
+  let s' := fold_left (fun s l => merge_target f s l src) targets s in
+  sub_b (ls_data s') D = true /\ sub_b (ls_data s) (ls_data s') = true /\ json_wf (ls_data s') = true /\
+  (ls_hard s' = false -> ls_hard s = false /\ forall l, In l targets -> is_obj_at (ls_data s) l -> contained (ls_data s') (l, src)).
+Proof.
+  intros f src targets. induction targets as [|l r IH]; intros s D Hmp Hs Wd Wsrc Ht; cbv zeta; simpl.
+  - split; [exact Hs|]. split; [apply sub_refl; exact Wd|]. split; [exact Wd|]. intros Hh. split; [exact Hh|intros l []].
+  - destruct (Ht l (or_introl eq_refl)) as (w & Hw & Hsw).
+    destruct (merge_target_facts f s l src D w Hmp Hs Hw Hsw Wd Wsrc) as (A1 & A2 & A3 & A4).
+    destruct (IH (merge_target f s l src) D Hmp A1 A3 Wsrc (fun l' H => Ht l' (or_intror H))) as (B1 & B2 & B3 & B4).
+    split; [exact B1|]. split; [eapply sub_trans; eassumption|]. split; [exact B3|].
+    intros Hh. destruct (B4 Hh) as [Hh1 Hc1]. destruct (A4 Hh1) as [Hh0 Hc0]. split; [exact Hh0|].
+    intros l' [<-|Hin] Hobj.
+    + eapply contained_mono; [exact B2|]. apply Hc0. exact Hobj.
+    + apply Hc1; [exact Hin|]. destruct Hobj as (m & Hm). eapply obj_persist; eassumption.
+Qed.
+
+Lemma buckets_facts : forall f bs ents s D, f_mergepath f = [] ->
+  sub_b (ls_data s) D = true -> json_wf (ls_data s) = true -> forallb json_wf ents = true ->
+  (forall locs src, In (locs, src) (combine bs ents) -> forall l, In l locs -> exists w, get_loc l D = Some w /\ sub_b src w = true) ->
+  let s' := merge_buckets f s bs ents in
+  sub_b (ls_data s') D = true /\ sub_b (ls_data s) (ls_data s') = true /\ json_wf (ls_data s') = true /\
+  (ls_hard s' = false -> ls_hard s = false /\
+     forall locs src, In (locs, src) (combine bs ents) -> forall l, In l locs -> is_obj_at (ls_data s) l -> contained (ls_data s') (l, src)).
+Proof.
+  intros f bs. induction bs as [|b bs IH]; intros ents s D Hmp Hs Wd We Ht; cbv zeta; simpl.
+  - split; [exact Hs|]. split; [apply sub_refl; exact Wd|]. split; [exact Wd|]. intros Hh. split; [exact Hh|intros ? ? []].
+  - destruct ents as [|src ents].
+    { split; [exact Hs|]. split; [apply sub_refl; exact Wd|]. split; [exact Wd|]. intros Hh. split; [exact Hh|intros ? ? []]. }
+    simpl in We. apply andb_prop in We as [W1 W2].
+    destruct (fold_target_facts f src b s D Hmp Hs Wd W1 (fun l H => Ht b src (or_introl eq_refl) l H)) as (A1 & A2 & A3 & A4).
+    destruct (IH ents _ D Hmp A1 A3 W2 (fun locs src' H => Ht locs src' (or_intror H))) as (B1 & B2 & B3 & B4).
+    split; [exact B1|]. split; [eapply sub_trans; eassumption|]. split; [exact B3|].
+    intros Hh. destruct (B4 Hh) as [Hh1 Hc1]. destruct (A4 Hh1) as [Hh0 Hc0]. split; [exact Hh0|].
+    intros locs src' [E|Hin] l Hl Hobj.
+    + inversion E; subst. eapply contained_mono; [exact B2|]. apply Hc0; assumption.
+    + eapply Hc1; [exact Hin|exact Hl|]. destruct Hobj as (m & Hm). eapply obj_persist; eassumption.
+Qed.
+
+(* ---- the shape of mergeResult on a response that parses ---- *)
+Lemma merge_result_nullish : forall f res items batch s resp,
+  rs_err res = false -> rs_body res = BJson resp -> is_nullish (get_loc (f_datapath f) resp) = true ->
+  ls_data (merge_result f res items batch s) = ls_data s /\ ls_hard (merge_result f res items batch s) = ls_hard s.
+Proof.
+  intros f res items batch s resp He Hb Hn. unfold merge_result. rewrite He, Hb, Hn.
+  destruct (match get_loc [PName k_errors] resp with Some (JArr (_ :: _)) => true | _ => false end);
+    destruct (is_entity_kind (f_kind f) && _); try (split; reflexivity);
+    cbn [negb andb]; try (destruct (non2xx (rs_status res)); split; reflexivity); split; reflexivity.
+Qed.
+
+Lemma merge_result_one : forall f res l s resp rd,
+  rs_err res = false -> rs_body res = BJson resp -> get_loc (f_datapath f) resp = Some rd -> is_nullish (Some rd) = false ->
+  exists s1, ls_data s1 = ls_data s /\ ls_hard s1 = ls_hard s /\ merge_result f res [l] None s = merge_target f s1 l rd.
+Proof.
+  intros f res l s resp rd He Hb Hg Hn. unfold merge_result. rewrite He, Hb, Hg, Hn.
+  eexists. split; [|split; [|reflexivity]];
+    destruct (match get_loc [PName k_errors] resp with Some (JArr (_ :: _)) => true | _ => false end); reflexivity.
+Qed.
+
+Lemma merge_result_many : forall f res items bs s resp e es,
+  rs_err res = false -> rs_body res = BJson resp -> get_loc (f_datapath f) resp = Some (JArr (e :: es)) ->
+  items <> [] -> length bs = length (e :: es) ->
+  exists s1, ls_data s1 = ls_data s /\ ls_hard s1 = ls_hard s /\ merge_result f res items (Some bs) s = merge_buckets f s1 bs (e :: es).
+Proof.
+  intros f res items bs s resp e es He Hb Hg Hne Hlen. unfold merge_result. rewrite He, Hb, Hg. cbn [is_nullish].
+  destruct items as [|l [|l2 r]]; [congruence| |]; rewrite Hlen, Nat.eqb_refl;
+    (eexists; split; [|split; [|reflexivity]];
+     destruct (match get_loc [PName k_errors] resp with Some (JArr (_ :: _)) => true | _ => false end); reflexivity).
+Qed.
+
+(* ---- the shape of a load (analysis of prepare on the run's own data) ---- *)
+Lemma flat_render_some_obj : forall fields v b, flat_render fields v = Some b -> bytes_eqb b b_null = false -> exists m, v = JObj m.
+Proof.
+  intros fields v b H N. destruct v; simpl in H; try discriminate.
+  - inversion H; subst. rewrite bytes_eqb_refl in N. discriminate.
+  - eexists. reflexivity.
+Qed.
+
+Lemma shape_of_load : forall kind_of f dataF dF rqF batchF, fetch_ok kind_of f = true ->
+  prepare f dataF (select_items dataF (f_path f)) = PLoad dF rqF batchF ->
+  load_shape f dataF (select_items dataF (f_path f)) rqF batchF.
+Proof.
+  intros kind_of f dataF dF rqF batchF Hok HP.
+  destruct (fetch_ok_inv kind_of f Hok) as (Hk & Hd & Hnt & Hmp & Hkind).
+  unfold load_shape. destruct (f_kind f) eqn:K.
+  - rewrite Hkind in *. change (select_items dataF []) with [@nil pelem] in *.
+    unfold prepare in HP. rewrite K in HP. cbn [get_loc] in HP.
+    split; [reflexivity|]. destruct dataF; inversion HP; split; reflexivity.
+  - destruct (rep_wf_inv _ Hkind) as (ty & inacc & fields & Hrep & Hf).
+    set (itemsF := select_items dataF (f_path f)) in *.
+    unfold prepare in HP. rewrite K, Hrep in HP. rewrite (render_rep_flat ty inacc fields _ Hf) in HP.
+    destruct (flat_render fields (items_data dataF itemsF)) as [b|] eqn:FR; [|discriminate].
+    destruct (bytes_eqb b b_null || bytes_eqb b b_empty_obj) eqn:Sk; [discriminate|].
+    apply Bool.orb_false_elim in Sk as [N1 N2]. inversion HP; subst rqF batchF. clear HP.
+    destruct itemsF as [|l [|l2 r]] eqn:EI.
+    + simpl in FR. inversion FR; subst b. rewrite bytes_eqb_refl in N1. discriminate.
+    + unfold items_data in FR. destruct (get_loc l dataF) as [vF|] eqn:G.
+      * destruct (flat_render_some_obj _ _ _ FR N1) as (m & ->). exists l, b, m. repeat split; assumption.
+      * simpl in FR. inversion FR; subst b. rewrite bytes_eqb_refl in N1. discriminate.
+    + simpl in FR. discriminate.
+  - destruct (rep_wf_inv _ Hkind) as (ty & inacc & fields & Hrep & Hf).
+    set (itemsF := select_items dataF (f_path f)) in *.
+    destruct (batch_prepare_flat ty inacc fields itemsF dataF [] Hf) as (bsF & HbF & HspecF).
+    unfold prepare in HP. rewrite K, Hrep, HbF in HP. rewrite Hrep, HbF. cbn [snd].
+    exists bsF. split; [reflexivity|]. destruct bsF as [|bk0 bsF'] eqn:EB; [discriminate|]. rewrite <- EB in *.
+    split; [rewrite EB; discriminate|]. inversion HP; subst rqF batchF. split; [reflexivity|]. split; [reflexivity|].
+    intros b l Hin. apply HspecF in Hin as [(locs & [] & _)|[Hl (vF & GF & FRv & N1 & N2)]].
+    destruct (flat_render_some_obj _ _ _ FRv N1) as (m & ->). exists m. try subst dF. exact GF.
+Qed.
+
+(* no array on the path: at most one item, also under smaller data *)
+Lemma select_len_noarr : forall dF d0 path iF i0, sub_b dF d0 = true -> no_types path = true ->
+  items_inv dF iF i0 -> (length iF <= 1)%nat -> noarr_path d0 path i0 = true ->
+  (length (fold_left (fun items pe => select_step dF pe items) path iF) <= 1)%nat.
+Proof.
+  intros dF d0 path. induction path as [|pe r IH]; intros iF i0 Hs Ht Hi Hl Hn; simpl; [exact Hl|].
+  unfold no_types in Ht. simpl in Ht. apply andb_prop in Ht as [T1 T2]. simpl in Hn. apply andb_prop in Hn as [N1 N2].
+  assert (Hty : pe_types pe = []) by (destruct (pe_types pe); [reflexivity|discriminate]).
+  apply (IH (select_step dF pe iF) (select_step d0 pe i0)); try assumption.
+  - apply select_step_inv; assumption.
+  - unfold select_step. destruct (pe_path pe) as [|n0 ns] eqn:P; [exact Hl|].
+    destruct iF as [|l [|l2 rr]]; [simpl; lia| |simpl in Hl; lia].
+    cbn [flat_map]. rewrite app_nil_r. destruct (get_loc l dF) as [vF|] eqn:GF; [|simpl; lia].
+    rewrite Hty. cbn [allowed_by_typename].
+    destruct (get_path (n0 :: ns) vF) as [xF|] eqn:PF; [|simpl; lia].
+    destruct xF as [| | | |aF|]; try (simpl; lia).
+    exfalso. destruct (Hi l (or_introl eq_refl)) as [Hin0|Hnull].
+    + destruct (sub_get_loc _ _ _ _ Hs GF) as (v0 & G0 & Hv).
+      rewrite get_path_loc in PF. destruct (sub_get_loc _ _ _ _ Hv PF) as (x0 & P0 & Hx).
+      destruct (sub_arr_inv _ _ Hx) as (a0 & -> & _).
+      rewrite forallb_forall in N1. specialize (N1 l Hin0). rewrite G0 in N1. rewrite ?P in N1. rewrite get_path_loc, P0 in N1. discriminate.
+    + rewrite Hnull in GF. inversion GF; subst vF. simpl in PF. discriminate.
 Qed.
